@@ -306,6 +306,13 @@ Theorem loc_altitude_roundtrip : forall alt, -10000000 <= alt < 4284967296 ->
 Proof. exact altitude_roundtrip. Qed.
 Print Assumptions loc_altitude_roundtrip.
 
+(* hence a LOC whose sizes are wire values is read back exactly (loc_expect is what the FLocRec case of
+   text_roundtrip_schema returns) *)
+Theorem loc_from_wire_reads_back_exactly : forall la lo alt sz hp vp,
+  is_wire_size sz -> is_wire_size hp -> is_wire_size vp -> loc_expect la lo alt sz hp vp = VLoc la lo alt sz hp vp.
+Proof. exact loc_expect_wire. Qed.
+Print Assumptions loc_from_wire_reads_back_exactly.
+
 (* the rounding primitive: for 2^-10 <= n/d < 2^40 the result is finite and within half a unit of its last place *)
 Theorem double_rounding_spec : forall neg n d, 0 < n -> 0 < d -> d <= n * 2 ^ 10 -> n < d * 2 ^ 40 ->
   exists m e, round_q neg n d = FFin (mkD neg m e) /\ -64 <= e <= -11 /\ 0 <= m /\
